@@ -335,6 +335,19 @@ class Executor:
         r = self.region(st, p)
         off = p.off
         if is_z3(off):
+            offs = z3.simplify(off)
+            if r.size is None and r.lazy and not z3.is_bv_value(offs):
+                # array-like select on an object of unknown extent: one symbolic cell per offset term
+                key = ('symoff', offs.get_id(), self.m.sizeof(ty))
+                c = r.cells.get(key)
+                if c is None:
+                    v = self.fresh_of(st, ty, '%s@sym' % r.name)
+                    if r.const:
+                        r = r.copy(); r.const = False; st.mem[r.rid] = r
+                    r.cells[key] = (v, self.m.sizeof(ty))
+                    self.keep.append(offs)
+                    return v
+                return self.retype(c[0], ty)
             off = self.concretize_offset(st, r, off, self.m.sizeof(ty))
         size = self.m.sizeof(ty)
         if r.size is not None and (off < 0 or off + size > r.size):
@@ -353,6 +366,8 @@ class Executor:
         # overlapping cells?
         covering = []
         for o, (v, s) in r.cells.items():
+            if isinstance(o, tuple):
+                continue
             if o < off + size and o + s > off:
                 covering.append((o, v, s))
         if not covering:
@@ -464,6 +479,16 @@ class Executor:
         off = p.off
         size = self.m.sizeof(ty)
         if is_z3(off):
+            offs = z3.simplify(off)
+            if r.size is None and r.lazy and not z3.is_bv_value(offs):
+                if r.const:
+                    r = r.copy(); r.const = False; st.mem[r.rid] = r
+                r.cells[('symoff', offs.get_id(), size)] = (v, size)
+                self.keep.append(offs)
+                r.writes += 1
+                if self.write_hook:
+                    self.write_hook(st, r, offs, size, v)
+                return
             off = self.concretize_offset(st, r, off, size, write=True)
         if r.size is not None and (off < 0 or off + size > r.size):
             st.event('oob-store', region=r.name, off=off, size=size)
@@ -486,6 +511,8 @@ class Executor:
             return
         dead = []
         for o, (v, s) in cells.items():
+            if isinstance(o, tuple):
+                continue
             if o < off + size and o + s > off:
                 dead.append((o, v, s))
         for o, v, s in dead:
@@ -552,6 +579,8 @@ class Executor:
             rd = rd.copy(); rd.const = False; st.mem[rd.rid] = rd
         items = []
         for o, (v, sz) in rs.cells.items():
+            if isinstance(o, tuple):
+                continue
             if o >= s.off and o + sz <= s.off + n:
                 items.append((o, v, sz))
             elif o < s.off + n and o + sz > s.off:
@@ -1131,6 +1160,7 @@ class Executor:
 
     opaque_may_be_null = False
     opaque_calls = False
+    deadline = None
 
     def cast(self, st, op, v, fty, tty):
         fty = self.m.resolve(fty)
@@ -1325,6 +1355,8 @@ class Executor:
             self.stats['steps'] += 1
             if st.steps > self.max_steps:
                 raise PathEnd('steplimit')
+            if self.deadline is not None and (self.stats['steps'] & 1023) == 0 and time.time() > self.deadline:
+                raise Unsupported('time limit of the exploration exceeded')
             fr = st.frames[-1]
             I = fr.fn.blocks[fr.block][fr.idx]
             st.choice_idx = 0
